@@ -49,6 +49,14 @@ NOTES = {
               "C03 has a second part (props/c03_claims.py): C20's harness stream (ClaimEvent logs through the real handlers and the real "
               "calldata search, mixed multi-claim transactions) judged by C20Cases.spec, reported under C03"),
     "C20_5": ("caught at first run by C20; by C03 after the claim-record part was added (see C03_5)", ""),
+    "C12_5": ("MISSED at first run by C12 and by C08 (equal deposits occurred, but none on two positions of the same parity within a surviving history)",
+              "harness/bridge: a deposit equals the one two counts earlier one time in five, and C08 starts with a directed history of two "
+              "alternating deposit contents (equal leaves on positions 0, 2, 4, 8 and 1, 3, 5, 6, 7, 9); harness/c12: a deposit equals the one two "
+              "counts earlier one time in four"),
+    "C02_5": ("MISSED at first run (no certificate spanned more than a few dozen blocks)",
+              "aggsender harness: scenario `wide-range` (both flows): two certificates that each span 10001 blocks, with bridges and claims in the "
+              "blocks at distance 100, 256, 500, 1000, 1024, 2000, 2048, 4096, 5000, 8192, 10000, 10001 from the first block"),
+    "C07_6": ("caught at first run by C07 (not by C11, whose histories have no storage faults)", ""),
     "C16_4": ("caught at first run by C16; MISSED by the GER-store part of C04",
               "C04 GER-store part: every query is now also asked right before each reorg"),
 }
